@@ -211,6 +211,19 @@ def c15_run(case):
         return 'check_cycles()=%r but acyclic=%r' % (r, acyc)
     if r not in (True, False):
         return 'check_cycles() returned %r' % (r,)
+    # `verbose` only adds messages: same answer with verbose schedulers above the graph, then everywhere
+    above = [x for x in top.iterate_jobs(scan_schedulers=True) if isinstance(x, PureScheduler) and x is not s] + [top]
+    for group, what in ((above, 'on the schedulers above the graph'), ([s], 'on every scheduler')):
+        for x in group:
+            x.verbose = True
+        try:
+            rv, _ = quiet(top.check_cycles)
+        except Exception as exc:                                    # pylint: disable=broad-except
+            return 'check_cycles() with verbose=True %s raised %r' % (what, exc)
+        if rv is not acyc and rv != acyc:
+            return 'check_cycles()=%r with verbose=True %s, but acyclic=%r' % (rv, what, acyc)
+    for x in above + [s]:
+        x.verbose = False
     # topological_order of the scheduler holding the graph
     order, raised = [], False
     try:
@@ -1135,6 +1148,24 @@ def rt_cases(prop):
         ]
         for sp in fixed:
             yield {'kind': 'rt', 'prop': prop, 'spec': sp}
+        if prop in ('C08', 'C05', 'C11') and hasattr(__import__('asyncio'), 'timeout'):
+            # a job with a timeout of its own, cleaning up after it (a cancellation in flight in its task) at the instant
+            # the scheduler's timeout / a critical failure / the enclosing scheduler's timeout falls
+            for cleanup in (2, 3):
+                yield {'kind': 'rt', 'prop': prop,
+                       'spec': S('top', [J('j', inner=[1, cleanup, 5]), J('k', duration=1)], timeout=2)}
+                yield {'kind': 'rt', 'prop': prop,
+                       'spec': S('top', [S('n', [J('j', inner=[1, cleanup, 5]), J('k', duration=1)]), J('y', duration=1)], timeout=2)}
+                yield {'kind': 'rt', 'prop': prop,
+                       'spec': S('top', [J('j', inner=[1, cleanup, 5]), J('c', duration=2, critical=True, outcome='raise')])}
+        if prop == 'C11':
+            # a job without successors whose own task ends cancelled (nobody cancelled it through the scheduler) while
+            # siblings run on: the run goes on and ends cleanly, nothing is left behind
+            for wrap in (False, True):
+                for w in (None, 2):
+                    inner = S('n', [J('x', outcome='cancel-self'), J('w1', duration=3), J('w2', duration=3)], window=w)
+                    yield {'kind': 'rt', 'prop': prop,
+                           'spec': S('top', [inner, J('y', duration=4)]) if wrap else dict(inner, name='top')}
         if prop == 'C14':
             for val in ('plain', 'none', 'pending-future', 'done-future', 'failed-future', 'task', 'failing-task', 'coroutine'):
                 for crit in (False, True):
